@@ -476,9 +476,20 @@ def _slices_equivalence(col, case0, ws, cmds, vol, optset, ref_main):
     sdir = os.path.join(ws, "slices")
     shutil.rmtree(sdir, ignore_errors=True)
     os.makedirs(sdir)
-    for k in range(shape[2]):
-        # image[row r][column c] = volume[x=c, y=r, z=k]  (code "RAS")
-        PIL.Image.fromarray(np.ascontiguousarray(arr[:, :, k].T)).save(
+    # the stack is cut in one of six orientations (identity, all axes
+    # reversed, the two cyclic permutations with and without reversals, a
+    # swap), chosen by the unit: columns run along the first letter's axis,
+    # rows along the second, slices along the third
+    codes = ("RAS", "LPI", "ASR", "PIL", "SRA", "RIP")
+    code = codes[sum(map(ord, json.dumps(case0, sort_keys=True)))
+                 % len(codes)]
+    axis = {"R": 0, "L": 0, "A": 1, "P": 1, "S": 2, "I": 2}
+    t = np.transpose(arr, [axis[ch] for ch in code])
+    t = t[tuple(slice(None, None, 1 if ch in "RAS" else -1)
+                for ch in code)]
+    for k in range(t.shape[2]):
+        # image[row r][column c] = t[c, r, k]
+        PIL.Image.fromarray(np.ascontiguousarray(t[:, :, k].T)).save(
             os.path.join(sdir, "s%04d.png" % k))
     D4 = os.path.join(ws, "fromslices")
     shutil.rmtree(D4, ignore_errors=True)
@@ -486,13 +497,14 @@ def _slices_equivalence(col, case0, ws, cmds, vol, optset, ref_main):
     shutil.copy(os.path.join(ws, "main", "info"), os.path.join(D4, "info"))
     o = OPTSETS[optset]
     r1 = sandbox.run_cli("slices_to_precomputed",
-                         [sdir, D4, "--input-orientation", "RAS"] + o)
+                         [sdir, D4, "--input-orientation", code] + o)
     r2 = sandbox.run_cli("compute_scales", [D4] + o + cmds[
         "compute-scales"][1][len([D4] + o):])
     c = dataset_canon(D4)
     case = dict(case0, history=["gen-info", "gen-scales", "vol2pre",
                                 "compute-scales", "slices-to-precomputed",
-                                "compute-scales(slices)"])
+                                "compute-scales(slices)"],
+                slice_orientation=code)
     if not (r1.ok and r2.ok):
         col.ev(1, 1, "slices-bad")
         col.violation("C19/slices-workflow-fails", case, "status 0",
@@ -578,6 +590,17 @@ def replay(case):
         prev = None
         c1 = ws_canon(ws)
         results = []
+        if "slices-to-precomputed" in hist:
+            # the slice-stack oracle: the four steps of the volume workflow,
+            # then the same voxels delivered as slices
+            for name in hist[:4]:
+                apply(cmds, name)
+            case0 = {"volume": case["volume"], "options": case["options"],
+                     "mmap": case.get("mmap", False),
+                     "method": case.get("method", "explicit")}
+            _slices_equivalence(col, case0, ws, cmds, case["volume"],
+                                case["options"], ws_canon(ws)["main"])
+            return col.records()
         for i, name in enumerate(hist):
             before = c1
             r = apply(cmds, name)
